@@ -6,11 +6,11 @@ From OV.C02 Require Import Base Model Spec.
 Import ListNotations.
 Local Open Scope Z_scope.
 
-(* the guard: arguments below 2^40, dtype sizes up to 2^20, buffers below 2^61 bytes *)
-Definition ARG : Z := 1099511627776.              (* 2^40 *)
-Definition DTMAX : Z := 1048576.                  (* 2^20 *)
-Definition BMAX : Z := 2305843009213693952.       (* 2^61 *)
-Definition small (x : Z) : Prop := - ARG < x < ARG.
+(* the domain of the C++ interface: integer arguments are dim_t (int64_t), a dtype size is a positive `int`;
+   reachable buffers are at most max_bytes = 2^62-1 bytes long (entriesToBytes) *)
+Definition DTMAX : Z := 2147483647.               (* INT_MAX *)
+Definition BMAX : Z := 4611686018427387904.       (* max_bytes + 1 = 2^62 *)
+Definition small (x : Z) : Prop := - two63 <= x < two63.     (* x is a dim_t value *)
 Definition dt_ok (dt : Z) : Prop := 1 <= dt <= DTMAX.
 
 Definition op_ok (o : op) : Prop :=
